@@ -52,3 +52,27 @@ def match_conc(prop, clause, rec):
             continue
         return f
     return None
+
+
+def match_demand(prop, clause, prog):
+    """Open finding matching a violation of the demand family, or None."""
+    def chain(p):
+        out = []
+        while p['op'] not in ('list', 'dict'):
+            out.append(p)
+            p = p['in']
+        return out          # top first
+    for f in common.load_findings()['findings']:
+        m = f.get('match')
+        if f['status'] != 'open' or not m or m.get('family') != 'demand':
+            continue
+        if f['property'] != prop or m.get('clause') != clause:
+            continue
+        if m.get('nested_batch_drop'):
+            ops = chain(prog)
+            batches = [i for i, o in enumerate(ops) if o['op'] == 'batch']
+            # an outer batch above an inner batch with drop_last
+            if not any(ops[j]['drop'] for i in batches for j in batches if j > i):
+                continue
+        return f
+    return None
